@@ -12,6 +12,11 @@ from c02 import CLASSES, gen_values, groups_of, prod  # noqa: E402
 from common import Check, REPO  # noqa: E402
 
 
+def fmax_of(dtype):
+    _, prec, emax, _ = N.FMT[dtype]
+    return Fraction(2) ** emax - Fraction(2) ** (emax - prec)
+
+
 def main(tier):
     ck = Check("C16", tier)
     ck.coverage["rule"] = (
@@ -39,9 +44,15 @@ def main(tier):
         bits = [0] * prod(shape)
         kinds = []
         for g, js in grp.items():
-            cls = rng.choice(CLASSES)
+            cls = rng.choice(CLASSES + ["dtypemax"])
             kinds.append(cls)
-            for j, b in zip(js, gen_values(rng, dtype, len(js), cls)):
+            if cls == "dtypemax":
+                # magnitudes up to the largest finite number of the dtype itself (both signs)
+                fmax = fmax_of(dtype)
+                vals = [N.encode_nearest(fmax * Fraction(rng.choice([1, 1, -1, -1, 0.999, 0.75, -0.6, 0.5, 0.3])).limit_denominator(1 << 30), dtype) for _ in js]
+            else:
+                vals = gen_values(rng, dtype, len(js), cls)
+            for j, b in zip(js, vals):
                 bits[j] = b
         calls.append({"fn": "quantize_weight", "dtype": dtype, "shape": shape, "bits": bits, "qtype": qt, "axis": axis, "group_size": gs, "optimizer": None, "kinds": kinds})
     res = ck.impl("numq", {"calls": calls}, timeout=2400)
@@ -63,7 +74,19 @@ def main(tier):
                 sample={"config": cfg, "classes": c["kinds"][:6]} if len(ck.samples) < 4 else None)
         bad = [j for j, d in enumerate(deq) if not N.is_finite(d)]
         if bad:
-            ck.violation(f"finite weights dequantize to NaN/Inf ({qt}, {dtype}): NaN code / zero scale", {"config": cfg, "positions": bad[:8], "classes": c["kinds"], "bits": c["bits"]})
+            # the one situation the theorems exclude by hypothesis (grid qmax*scale not representable): identified precisely
+            grp0 = groups_of(shape, axis, gs)
+            fmax = fmax_of(dtype)
+            u0, _ = N.u_eta(dtype)
+            why = "NaN code / zero scale"
+            bad_groups = [js for js in grp0.values() if any(j in bad for j in js)]
+            if N.QINFO[qt][1] == 8:
+                if all(max(abs(xs[j]) for j in js) * Fraction(128, 127) * (1 + 4 * u0) > fmax for js in bad_groups):
+                    why = "absmax within 1% of the largest finite float: qmax x scale is not representable (scale or code rounded up)"
+            else:
+                if all(max([xs[j] for j in js] + [Fraction(0)]) - min([xs[j] for j in js] + [Fraction(0)]) > fmax * (1 - 4 * u0) for js in bad_groups):
+                    why = "group range hi - lo exceeds the largest finite float: the scale overflows"
+            ck.violation(f"finite weights dequantize to NaN/Inf ({qt}, {dtype}): {why}", {"config": cfg, "positions": bad[:8], "classes": c["kinds"], "bits": c["bits"]})
             continue
         u, eta = N.u_eta(dtype)
         grp = groups_of(shape, axis, gs)
@@ -120,7 +143,7 @@ def main(tier):
     if gen_ok:
         N.run_correspondence(ck, calls, res, shard=40)
     ck.assumptions += [
-        "float8 and int2/int4 finiteness on degenerate inputs is decided by the audit and the correspondence with the generated (repaired) code; the theorem covers qint8 for all three float formats including a zero scale",
+        "theorems cover qint8, both float8 types and the int2/int4 zero-scale case for all three float formats, under the hypothesis that the grid qmax*scale is representable; where it is not (absmax within 1% of the dtype's largest number) the implementation overflows: known findings F33 / F34",
         "8-bit audit tolerance on degenerate rows includes the optimizer-scale slack qmax*(u*s+eta) (a scale that underflows to zero dequantizes the row to zero: error <= 127*eta)",
     ]
     ck.finish("make -C coq ; coqc GenNum.v TieC16.v C16.v (per run, against /repo's current source)",
